@@ -2856,4 +2856,197 @@ Proof.
     pose proof (count_zero _ _ W i p Hp) as E. assert (p = WExited) by (destruct p; try discriminate; reflexivity). subst p.
     split; [reflexivity|]. apply (wi_closes _ _ _ _ (g_workers _ HG i _ x Hp Hx)).
 Qed.
+
+(* ---- variant: the workers cannot run forever on their own ---- *)
+Definition rank (p : wpc) : nat :=
+  match p with
+  | WSendPoll _ => 16 | WSendSel _ => 15 | WSendParked _ => 14 | WCallNext => 13 | WInNext => 12
+  | WCas _ => 10 | WCancel _ => 9 | WSCloseErr _ => 8 | WDefer => 7 | WLoadOnce => 6 | WSCloseNil => 5
+  | WCloseIn => 4 | WWgDone => 3 | WIdle | WExited | WPanic => 0
+  end.
+(* every released token allows one more trip round a worker's loop *)
+Definition measure (s : st) : nat := list_sum (map rank (ws s)) + 20 * list_sum (map s_tokens (srcs s)).
+
+Lemma sum_upd {A} (f : A -> nat) l i x y :
+  nth_error l i = Some x -> list_sum (map f (upd l i y)) + f x = list_sum (map f l) + f y.
+Proof.
+  revert i. induction l as [|a l IH]; intros [|i] H; simpl in *; try discriminate.
+  - inversion H; subst. lia.
+  - specialize (IH i H). lia.
+Qed.
+
+Lemma sum_map_le {A} (f : A -> nat) (g : A -> A) l : (forall x, f (g x) <= f x) -> list_sum (map f (map g l)) <= list_sum (map f l).
+Proof. intros H. induction l as [|a l IH]; simpl; [lia|]. specialize (H a). lia. Qed.
+
+Lemma rank_wake g p : wake_ok g -> rank (g p) <= rank p.
+Proof.
+  intros Hg. destruct (Hg p) as [A B]. destruct (is_parked p) eqn:E; [|rewrite A; auto].
+  destruct p; try discriminate. destruct (B eq_refl) as [-> | ->]; simpl; lia.
+Qed.
+
+Lemma measure_setw s s' i p p' :
+  nth_error (ws s) i = Some p -> ws s' = upd (ws s) i p' -> srcs s' = srcs s -> rank p' < rank p -> measure s' < measure s.
+Proof.
+  intros Hp Ews Es Hr. unfold measure. rewrite Ews, Es. pose proof (sum_upd rank _ _ _ p' Hp). lia.
+Qed.
+
+Lemma measure_wake s s' g i p p' :
+  wake_ok g -> is_parked p = false ->
+  nth_error (ws s) i = Some p -> ws s' = upd (map g (ws s)) i p' -> srcs s' = srcs s -> rank p' < rank p -> measure s' < measure s.
+Proof.
+  intros Hg Hnp Hp Ews Es Hr. unfold measure. rewrite Ews, Es.
+  assert (Hm : nth_error (map g (ws s)) i = Some p).
+  { rewrite nth_error_map, Hp. simpl. f_equal. apply Hg. exact Hnp. }
+  pose proof (sum_upd rank _ _ _ p' Hm). pose proof (sum_map_le rank g (ws s) (fun q => rank_wake g q Hg)). lia.
+Qed.
+
+Lemma measure_src s s' i p p' x x' :
+  nth_error (ws s) i = Some p -> nth_error (srcs s) i = Some x ->
+  ws s' = upd (ws s) i p' -> srcs s' = upd (srcs s) i x' ->
+  rank p' + 20 * s_tokens x' < rank p + 20 * s_tokens x -> measure s' < measure s.
+Proof.
+  intros Hp Hx Ews Es Hr. unfold measure. rewrite Ews, Es.
+  pose proof (sum_upd rank _ _ _ p' Hp). pose proof (sum_upd s_tokens _ _ _ x' Hx). lia.
+Qed.
+
+(* every step taken by worker i - internal or an up-call into its input - decreases the measure *)
+Theorem worker_steps_decrease s i l s' :
+  In l (worker_taus i) \/ (exists r, l = LSrcExit i r) \/ l = LSrcEnter i \/ l = LSrcClose i ->
+  step s l = Some s' -> measure s' < measure s.
+Proof.
+  intros Hl Hs.
+  assert (Hcases : (exists a, l = TSendSel i a) \/ In l [TSendPoll i; TCas i; TWCancel i; TSCloseErr i; TDefer i; TLoadOnce i; TSCloseNil i; TWgDone i; LSrcEnter i; LSrcClose i] \/ exists r, l = LSrcExit i r).
+  { destruct Hl as [Hl|[Hl|[Hl|Hl]]]; [|right; right; exact Hl|subst; right; left; simpl; tauto|subst; right; left; simpl; tauto].
+    unfold worker_taus in Hl. simpl in Hl.
+    repeat (destruct Hl as [<-|Hl]; [first [left; eexists; reflexivity | right; left; simpl; tauto]|]). destruct Hl. }
+  clear Hl. destruct Hcases as [[a ->]|[Hl|[r ->]]].
+  - (* TSendSel *) simpl in Hs. destruct (nth_error (ws s) i) as [p|] eqn:Hp; [|discriminate]. destruct p; try discriminate.
+    destruct a.
+    + destruct (ctx s); [|discriminate]. inversion Hs; subst. eapply measure_setw; eauto; simpl; auto; unfold rank; lia.
+    + destruct (rdone s); [|discriminate]. inversion Hs; subst. eapply measure_setw; eauto; simpl; auto; unfold rank; lia.
+    + destruct (sdone s); [|discriminate]. inversion Hs; subst. eapply measure_setw; eauto; simpl; auto.
+      destruct (serr s); unfold rank; simpl; lia.
+    + destruct (k_parked s); [|discriminate]. inversion Hs; subst. eapply measure_setw; eauto; simpl; auto; unfold rank; lia.
+    + destruct (ctx s || rdone s || sdone s || k_parked s); [discriminate|]. inversion Hs; subst.
+      eapply measure_setw; eauto; simpl; auto; unfold rank; lia.
+  - simpl in Hl. repeat (destruct Hl as [<-|Hl]); try destruct Hl; simpl in Hs;
+      destruct (nth_error (ws s) i) as [p|] eqn:Hp; try discriminate; destruct p; try discriminate.
+    + (* TSendPoll *) inversion Hs; subst. eapply measure_setw; eauto; simpl; auto.
+      destruct (sdone s); [destruct (serr s)|]; unfold rank; simpl; lia.
+    + (* TCas *) destruct (once s); inversion Hs; subst; eapply measure_setw; eauto; simpl; auto; unfold rank; simpl; lia.
+    + (* TWCancel *) inversion Hs; subst. eapply (measure_wake s _ wake_err); eauto using wake_err_ok; simpl; auto; unfold rank; lia.
+    + (* TSCloseErr *) inversion Hs; subst. unfold close_sender. destruct (sdone s).
+      * eapply measure_setw; eauto; simpl; auto; unfold rank; lia.
+      * eapply (measure_wake s _ (wake_sender (Some e))); eauto using wake_sender_ok; simpl; auto; unfold rank; lia.
+    + (* TDefer *) inversion Hs; subst. eapply measure_setw; eauto; simpl; auto.
+      match goal with |- rank (if ?b then _ else _) < _ => destruct b; unfold rank; simpl; lia end.
+    + (* TLoadOnce *) inversion Hs; subst. eapply measure_setw; eauto; simpl; auto. destruct (once s); unfold rank; simpl; lia.
+    + (* TSCloseNil *) inversion Hs; subst. unfold close_sender. destruct (sdone s).
+      * eapply measure_setw; eauto; simpl; auto; unfold rank; lia.
+      * eapply (measure_wake s _ (wake_sender None)); eauto using wake_sender_ok; simpl; auto; unfold rank; lia.
+    + (* TWgDone *) inversion Hs; subst. eapply measure_setw; eauto; simpl; auto; unfold rank; lia.
+    + (* LSrcEnter *) inversion Hs; subst. eapply measure_setw; eauto; simpl; auto; unfold rank; lia.
+    + (* LSrcClose *) destruct (nth_error (srcs s) i) as [x|] eqn:Hx; [|discriminate]. inversion Hs; subst.
+      eapply measure_src; eauto; simpl; auto; unfold rank; lia.
+  - (* LSrcExit *) simpl in Hs. destruct (nth_error (ws s) i) as [p|] eqn:Hp; [|discriminate]. destruct p; try discriminate.
+    destruct (nth_error (srcs s) i) as [x|] eqn:Hx; [|discriminate].
+    destruct r as [v'| |[z| |]];
+      repeat match type of Hs with context [match ?y with _ => _ end] => destruct y eqn:? end;
+      try discriminate; inversion Hs; subst;
+      first [ eapply measure_src; eauto; simpl; auto; unfold rank; simpl; lia | eapply measure_setw; eauto; simpl; auto; unfold rank; simpl; lia ].
+Qed.
 End SMP.
+
+(* ================================================================================================ *)
+(* variant for chans.Merge / chans.Replicate: the call's own steps cannot go on forever *)
+Module CMV.
+Import CM. Import CMP.
+
+Definition is_send (c : cmd) : bool := match c with CSend _ => true | CClose => false end.
+Definition nsends (q : list cmd) : nat := length (filter is_send q).
+(* values that can still reach the call without the controller: buffered in an input or queued at its producer *)
+Definition items (s : st) : nat :=
+  list_sum (map (fun c => length (buf c)) (firstn (nin s) (chs s))) + list_sum (map (fun p => nsends (p_q p)) (prods s)).
+Definition unseen (s : st) : nat := SMP.count negb (seen_closed s).
+Definition hrank (s : st) : nat := match pc s with LHand _ _ j => 1 + (nout s - j) | _ => 0 end.
+Definition prank (p : lpc) : nat := match p with LInit => 3 | LLoop | LHand _ _ _ => 2 | LRetp => 1 | LDone => 0 end.
+Definition measure (s : st) : nat := (nout s + 3) * items s + unseen s + hrank s + prank (pc s).
+
+Lemma firstn_upd_lt {A} (l : list A) n k x : k < n -> firstn n (upd l k x) = upd (firstn n l) k x.
+Proof.
+  revert n k. induction l as [|a l IH]; intros [|n] [|k] H; simpl; try reflexivity; try lia.
+  rewrite IH by lia. reflexivity.
+Qed.
+
+Lemma firstn_upd_ge {A} (l : list A) n k x : n <= k -> firstn n (upd l k x) = firstn n l.
+Proof.
+  revert n k. induction l as [|a l IH]; intros [|n] [|k] H; simpl; try reflexivity; try lia.
+  rewrite IH by lia. reflexivity.
+Qed.
+
+Lemma nth_error_firstn_lt {A} (l : list A) n k : k < n -> nth_error (firstn n l) k = nth_error l k.
+Proof.
+  revert n k. induction l as [|a l IH]; intros [|n] [|k] H; simpl; try reflexivity; try lia.
+  apply IH. lia.
+Qed.
+
+Lemma hol_rank s k v j : j <= nout s ->
+  match hand_or_loop s k v j with LHand _ _ j' => 1 + (nout s - j') | _ => 0 end <= 1 + (nout s - j)
+  /\ prank (hand_or_loop s k v j) = 2.
+Proof.
+  intros Hj. unfold hand_or_loop. destruct (knd s); try (destruct j; simpl; split; try reflexivity; lia).
+  destruct (Nat.ltb j (nout s)); simpl; split; try reflexivity; lia.
+Qed.
+
+Definition lib_label (l : lab) : Prop := l = LRet \/ l = TLibSend \/ l = TLibExit \/ exists pos, l = TLibRecv pos.
+
+Theorem lib_steps_decrease s l s' : Inv s -> lib_label l -> step s l = Some s' -> measure s' < measure s.
+Proof.
+  intros HI Hl Hs. destruct Hl as [->|[->|[->|[pos ->]]]].
+  - destruct (step_LRet _ _ Hs) as [Epc ->]. unfold measure, hrank, items, unseen. simpl. rewrite Epc. simpl. lia.
+  - (* TLibSend *)
+    destruct (step_TLibSend _ _ Hs) as [k v j c cn Epc Hc Hcn Hlen ->|k v j c p Epc Hc Hcn Hcap ->];
+      destruct (i_hand _ HI _ _ _ Epc) as (Hk & Hj & _);
+      unfold measure, hrank, items, unseen; simpl; rewrite Epc; simpl;
+      rewrite ?firstn_upd_ge by lia;
+      destruct (hol_rank s k v (S j) ltac:(lia)) as [A B]; rewrite B; simpl in *; lia.
+  - destruct (step_TLibExit _ _ Hs) as (Ek & Epc & Ec & ->). unfold measure, hrank, items, unseen. simpl. rewrite Epc. simpl. lia.
+  - (* TLibRecv *)
+    destruct (step_TLibRecv _ _ _ Hs) as [Epc Hcase].
+    destruct Hcase as [k c v b Hsel Hc Hb ->|k c Hsel Hc Hb Hcl ->|k c v q Hsel Hc Hb Hcl Hcap Hp ->];
+      destruct (sel_unseen _ _ _ HI Epc Hsel) as [Hk Hun].
+    + (* a buffered value *)
+      unfold measure, hrank, items, unseen, take_value. simpl. rewrite Epc. simpl.
+      rewrite firstn_upd_lt by exact Hk.
+      assert (Hf : nth_error (firstn (nin s) (chs s)) k = Some c) by (rewrite nth_error_firstn_lt by exact Hk; exact Hc).
+      pose proof (SMP.sum_upd (fun c0 => length (buf c0)) _ _ _ (set_buf c b) Hf) as S. simpl in S. rewrite Hb in S. simpl in S.
+      match goal with |- context [hand_or_loop ?s1 k v 0] => destruct (hol_rank s1 k v 0 ltac:(lia)) as [A B] end.
+      simpl in A, B. rewrite B. simpl in *. nia.
+    + (* closed *)
+      assert (Hu : SMP.count negb (upd (seen_closed s) k true) + 1 = SMP.count negb (seen_closed s)).
+      { assert (Hn : nth_error (seen_closed s) k = Some false).
+        { rewrite <- Hun. apply nth_error_of_nth. rewrite (i_seen _ HI). exact Hk. }
+        pose proof (SMP.count_upd negb _ _ _ true Hn) as C. simpl in C. unfold SMP.b2n in C. simpl in C. lia. }
+      unfold on_closed. unfold measure, hrank, items, unseen.
+      destruct (knd s); simpl; rewrite ?Epc; simpl;
+        try (match goal with |- context [if ?b then LRetp else LLoop] => destruct b end); simpl; lia.
+    + (* rendezvous with the producer *)
+      unfold measure, hrank, items, unseen, take_value. simpl. rewrite Epc. simpl.
+      pose proof (SMP.sum_upd (fun p0 => nsends (p_q p0)) _ _ _ (mkP q (PSent v)) Hp) as S. simpl in S.
+      unfold nsends in S at 2. simpl in S. fold (nsends q) in S.
+      match goal with |- context [hand_or_loop ?s1 k v 0] => destruct (hol_rank s1 k v 0 ltac:(lia)) as [A B] end.
+      simpl in A, B. rewrite B. simpl in *. nia.
+Qed.
+
+Theorem chans_variant incaps outcap s l s' :
+  reachable qstep (init_merge incaps outcap) s -> lib_label l -> step s l = Some s' -> measure s' < measure s.
+Proof.
+  intros Hr. destruct (reachable_inv _ _ (inv_init_merge incaps outcap) Hr) as [HI _]. apply lib_steps_decrease. exact HI.
+Qed.
+
+Theorem replicate_variant srccap dstcaps s l s' :
+  reachable qstep (init_replicate srccap dstcaps) s -> lib_label l -> step s l = Some s' -> measure s' < measure s.
+Proof.
+  intros Hr. destruct (reachable_inv _ _ (inv_init_replicate srccap dstcaps) Hr) as [HI _]. apply lib_steps_decrease. exact HI.
+Qed.
+End CMV.
